@@ -366,9 +366,9 @@ def judge(plan: dict, res: dict, refs: dict) -> list:
         elif ev["op"] == "encode_abort":
             pass
         elif ev["op"] == "mutate":
+            # a model that refuses attribute assignment (frozen) is legitimate: the
+            # executor then keeps the slot's old recipe and nothing is judged here
             last_enc.pop(ev["slot"], None)
-            if ev["outcome"]["k"] != "ok":
-                v = {"class": "component_assignment_raised", "observed": ev["outcome"], "expected": {"k": "ok"}}
         if v is None and ev.get("frames_bad"):
             v = {"class": "dataframe_mutated", "observed": ev["frames_bad"], "expected": []}
         if v is not None:
@@ -712,7 +712,12 @@ def main(opts) -> int:
     for n in range(min(tier["xcheck"], runs)):
         idx = xrng.randrange(runs)
         plan = gen_plan(core.rng_for(root, PROP, idx))
-        xjobs.append({"recipe": xrng.choice(plan["recipes"]), "hashseed": xrng.randrange(1, 2 ** 31)})
+        # half the sample: the recipe naming most distinct colours (set-order effects need >= 2)
+        if n % 2 == 0:
+            rec = max(plan["recipes"], key=lambda r: len({c for c in R.COLORS if f'"{c}"' in cjson(r)}))
+        else:
+            rec = xrng.choice(plan["recipes"])
+        xjobs.append({"recipe": rec, "hashseed": xrng.randrange(1, 2 ** 31)})
     xres, _ = core.pool_map(xcheck_job, xjobs)
     xviol = []
     for i, r in sorted(xres.items()):
